@@ -10,3 +10,8 @@ proof fn lemma_full_upto_len(c: Seq<u8>, hi: int)
 {
     if hi > 0 { lemma_full_upto_len(c, hi - 1); }
 }
+
+// vacuity: the precondition of RawExtractIf::next with an accepted element still to come is satisfiable
+proof fn canary_extract_if_pre<T>(e: &RawExtractIf<T>)
+    requires e.wf(), e.iter.pos@ < e.iter.s@.len(), e.table.table.items > 0,
+    ensures false {}
